@@ -245,19 +245,25 @@ impl Property for C10 {
             let x = match i { 0 => num_bigint::BigUint::from(0u32), 1 => num_bigint::BigUint::from(1u32), 2 => num_bigint::BigUint::from(2u32), _ => n - 1u32 };
             x.to_bytes_le()
         }
+        // 1 case in 4: the low z bits of both multipliers are cleared together (z up to 200), so that both recodings start with
+        // z zero digits and the doublings pending at the end of the interleaved loop exceed any small bound
+        let tzs = || prop_oneof![6 => Just(0u16), 1 => 1u16..=200, 1 => prop::sample::select(vec![31u16, 32, 33, 63, 64, 65, 127, 128, 129])];
+        fn clear_low(x: &mut Vec<u8>, z: u16) { for i in 0..(z as usize) { if i / 8 < x.len() { x[i / 8] &= !(1u8 << (i % 8)); } } }
         fn tiny_u128(i: u8) -> u128 { match i { 0 => 0, 1 => 1, 2 => 2, _ => u128::MAX } }
         fn tiny_u64(i: u8) -> u64 { match i { 0 => 0, 1 => 1, 2 => 2, _ => u64::MAX } }
         match self.classes[class].1.clone() {
-            Kind::Mamv(g, sc, pc) => (prop::bool::weighted(0.3).prop_flat_map(move |ch| pv_strategy(g, pc, ch)), gscalar(g, sc), any_gscalar(g), any::<bool>(), any::<u8>(), tiny())
-                .prop_map(move |(p, a, b, swap, form, t)| {
+            Kind::Mamv(g, sc, pc) => (prop::bool::weighted(0.3).prop_flat_map(move |ch| pv_strategy(g, pc, ch)), gscalar(g, sc), any_gscalar(g), any::<bool>(), any::<u8>(), tiny(), tzs())
+                .prop_map(move |(p, a, b, swap, form, t, z)| {
                     let (mut u, mut v) = if swap { (b, a) } else { (a, b) };
                     if let Some((i, j)) = t { u = tiny_scalar(g, &u, i); v = tiny_scalar(g, &v, j); }
+                    clear_low(&mut u, z); clear_low(&mut v, z);
                     Case::Mamv { g: g as u8, p, u, v, form }
                 })
                 .boxed(),
-            Kind::Mul128(g, sc) => (any_pv(g), u128_strategy(), gscalar(g, sc), tiny())
-                .prop_map(move |(p, mut u, mut v, t)| {
+            Kind::Mul128(g, sc) => (any_pv(g), u128_strategy(), gscalar(g, sc), tiny(), tzs())
+                .prop_map(move |(p, mut u, mut v, t, z)| {
                     if let Some((i, j)) = t { u = tiny_u128(i); v = tiny_scalar(g, &v, j); }
+                    if z > 0 { u = if z >= 128 { 0 } else { u >> z << z }; clear_low(&mut v, z); }
                     Case::Mul128 { g: g as u8, p, u, v }
                 })
                 .boxed(),
